@@ -102,6 +102,45 @@ def run(ctx, rep):
     from rules.c04 import void_group
     void_group(ctx, rep, "R2")
 
+    # the removal step runs inside the middleware wrapper: an exception in it is contained - and ends the step for
+    # every order still to come, for good (the removal is already registered).  What can raise here without
+    # a visible `raise`: reading a field that only some order types have.  Every such read must sit under a
+    # test of the order type that guarantees the field.
+    ot_fields = {}
+    for cn_ in ("LimitOrder", "LimitOnCloseOrder", "MarketOnCloseOrder"):
+        oc = prog.cls(cn_)
+        init_ = oc.methods.get("__init__")
+        otv = utext(oc.class_attrs.get("ORDER_TYPE")) if "ORDER_TYPE" in oc.class_attrs else None
+        if init_ is None or otv is None:
+            raise AnalysisError("order type class %s: __init__ / ORDER_TYPE not found" % cn_)
+        ot_fields[otv] = {t.attr for st_ in walk_nodes(init_.node.body, ast.Assign) for t in st_.targets
+                          if isinstance(t, ast.Attribute) and utext(t.value) == "self"} | {"ORDER_TYPE", "EXCHANGE", "info"}
+    cfgr = ctx.cfg(prr)
+    from sa.kinds import guard_pairs
+    n_typed = 0
+    for nd in cfgr.live_nodes():
+        for e_ in nd.exprs:
+            for a_ in ast.walk(e_):
+                if isinstance(a_, ast.Attribute) and isinstance(a_.ctx, ast.Load) and utext(a_.value) == "order.order_type":
+                    have = {k for k, v in ot_fields.items() if a_.attr in v}
+                    if len(have) == len(ot_fields):
+                        continue
+                    n_typed += 1
+                    gs_ = guard_pairs(cfgr, nd.id)
+                    allowed = set(ot_fields)
+                    for t_, pol_ in gs_:
+                        for k in list(ot_fields):
+                            if t_ == "order.order_type.ORDER_TYPE == %s" % k:
+                                allowed &= ({k} if pol_ else (set(ot_fields) - {k}))
+                        if t_.startswith("order.order_type.ORDER_TYPE in "):
+                            inside = {k for k in ot_fields if k in t_}
+                            allowed &= (inside if pol_ else (set(ot_fields) - inside))
+                    rep.check(allowed <= have, "R2", key(prr, a_, "order.order_type.%s is read only where the order type has it" % a_.attr),
+                              prr, a_, "order types possible here: %s; types that have the field: %s - an AttributeError here "
+                                        "is swallowed by the middleware wrapper and the orders after this one are never voided / reduced" % (
+                                            sorted(allowed), sorted(have)))
+    rep.floor("R2", "reads of type-specific order fields in the removal step", n_typed, 2)
+
     # ------------------------------------------------------------------ R3 range and selection
     lps = [x for x in walk_nodes(prr.node.body, ast.For) if utext(x.target) == "order"]
     rep.check(len(lps) == 1 and utext(lps[0].iter) == "market.blotter" and not loop_body_exits_early(lps[0]), "R3",
